@@ -349,6 +349,62 @@ def shard(tier, seed, idx, n):
                                 kw = {}
                             run_call(res, stack, servers, cfg, op, a, kw, "multikey")
                             res.case((stack, len(servers), sorted(cfg.items()), op, repr(a), sorted(kw.items())))
+    # 3b. batches that are large in BYTES (a client that flushes every so many KiB while still formatting): a bad key or a
+    #     value that cannot be encoded comes after tens / hundreds of KiB of well-formed commands
+    for stack, servers in STACKS:
+        for cfg in ({}, {"key_prefix": b"p:"}):
+            for nitems, vsize in ((5, 30000), (3, 70000), (40, 4000), (2, 200000), (300, 600)):
+                for late in ("bad-key-last", "bad-key-middle", "unencodable-value-last", "unencodable-value-middle", None):
+                    for nr in (False, True):
+                        work += 1
+                        if work % n != idx:
+                            continue
+                        r = random.Random(seed * 47 + work)
+                        if tier == "quick" and stack != "client" and r.random() < 0.5:
+                            continue
+                        items = [("b%d" % j, bytes([97 + j % 26]) * vsize) for j in range(nitems)]
+                        at = nitems - 1 if late and late.endswith("last") else nitems // 2
+                        if late and late.startswith("bad-key"):
+                            items[at] = (r.choice([b"a b", "k" * 251, b"\r\n", b""]), items[at][1])
+                        elif late:
+                            items[at] = (items[at][0], "caf\u00e9" * 10)           # not ASCII: cannot be encoded with the default encoding
+                        run_call(res, stack, servers, cfg, "set_many", (dict(items),), {"noreply": nr}, "bigbatch")
+                        res.case((stack, len(servers), sorted(cfg.items()), "set_many", nitems, vsize, late, nr))
+                        res.count("large_batches_by_bytes")
+            for nkeys in (300, 600):
+                for op in ("get_many", "gets_many", "delete_many"):
+                    for late in ("bad-key-last", "bad-key-middle", None):
+                        work += 1
+                        if work % n != idx:
+                            continue
+                        ks = [("L%04d" % j) + "x" * 235 for j in range(nkeys)]         # 240-byte keys: 72 / 144 KiB of keys
+                        if late:
+                            ks[nkeys - 1 if late.endswith("last") else nkeys // 2] = "a b"
+                        run_call(res, stack, servers, cfg, op, (ks,), {"noreply": False} if op == "delete_many" else {}, "bigbatch")
+                        res.case((stack, len(servers), sorted(cfg.items()), op, nkeys, late))
+                        res.count("large_batches_by_bytes")
+    # 3c. values beyond the server's item limit are still the caller's command: the server refuses them (SERVER_ERROR), the
+    #     client does not decide for it, with or without noreply
+    for stack, servers in STACKS:
+        for op in ("set", "add", "replace", "append", "prepend", "cas", "set_many"):
+            for vsize in ((1 << 20) + 1, (2 << 20) + 3, (1 << 20) - 1):
+                for nr in (True, False):
+                    work += 1
+                    if work % n != idx:
+                        continue
+                    r = random.Random(seed * 53 + work)
+                    if tier == "quick" and (stack != "client" or op not in ("set", "set_many", "cas")) and r.random() < 0.7:
+                        continue
+                    big = b"Z" * vsize
+                    if op == "set_many":
+                        a = ({"small1": b"v", "huge": big, "small2": b"w"},)
+                    elif op == "cas":
+                        a = ("huge", big, b"7")
+                    else:
+                        a = ("huge", big)
+                    run_call(res, stack, servers, {}, op, a, {"noreply": nr}, "oversize")
+                    res.case((stack, len(servers), op, vsize, nr))
+                    res.count("oversize_values")
     # 4. flush_all / cache_memlimit integers
     for stack, servers in STACKS[:2]:
         for v in [0, 1, 2 ** 31, None, 1.5, "1", b"1", "1 noreply"]:
